@@ -20,7 +20,7 @@ LEVEL = "proof"
 ASSUMPTIONS = [
     "threading.RLock / Condition are modelled as a mutex (at most one holder) and a wait-set with notify_all; spurious wake-ups are allowed by the theorems, not produced by the harness",
     "scheduling granularity of the co-simulation: a thread runs from one mutex operation to the next (start of a method -> `with self._lock` -> body up to `wait()` or the end of the block); the Lean theorems are about the finer instruction-level interleaving",
-    "holders of a section release it (deadlock freedom is relative to that)",
+    "holders of a section release it (deadlock freedom is relative to that); sections are entered through two guard objects shared by all threads (as SyncedEnforcer does), half of the programs end every section as if its body had raised",
     "tie: T3 regenerates the four methods as instruction lists (generated = expected by decide); the interpreter of these lists is co-simulated with the real object on every explored schedule",
 ]
 TRUSTED_EXTRA = ["translator T3 (tools/translate/t3_rwlock.py)", "the controlled scheduler (tools/harness/sched.py)"]
@@ -31,19 +31,25 @@ ROLE = {"r": "R", "w": "W"}
 # ------------------------------------------------------------------ one execution on the real lock
 
 
-def _worker(sc, lock, tid, script):
+def _worker(sc, lock, tid, script, guards, raising):
+    """guards: the two guard objects shared by ALL threads (as SyncedEnforcer shares its `_rl` / `_wl`); raising: every
+    section ends as if its body had raised (the guard must release all the same)"""
     c = sc.ctl[tid]
     for k, role in enumerate(script):
         if k > 0:
             sc.yield_(("idle",))
         c.info["role"] = role
         c.info["part"] = "acq"
-        cm = lock.gen_rlock() if role == "r" else lock.gen_wlock()
+        cm = guards[0] if role == "r" else guards[1]
         cm.__enter__()
         c.info["part"] = "in"
         sc.yield_(("in",))
         c.info["part"] = "rel"
-        cm.__exit__(None, None, None)
+        if raising:
+            err = RuntimeError("section body raised")
+            cm.__exit__(RuntimeError, err, None)
+        else:
+            cm.__exit__(None, None, None)
         c.info["part"] = "idle"
         c.info["round"] = k + 1
 
@@ -76,8 +82,12 @@ class Exec:
             self.lock = rwmod.RWLockWrite()
         finally:
             self.undo()
+        import zlib
+
+        guards = (self.lock.gen_rlock(), self.lock.gen_wlock())
+        raising = zlib.crc32(repr(tuple(scripts)).encode()) % 2 == 1  # half of the programs, fixed per program (replayable)
         for tid, script in enumerate(scripts):
-            c = self.sc.spawn(tid, _worker, self.sc, self.lock, tid, script)
+            c = self.sc.spawn(tid, _worker, self.sc, self.lock, tid, script, guards, raising)
             c.info.update(role=script[0] if script else "r", part="idle", round=0)
             if not script:
                 pass
